@@ -148,6 +148,9 @@ struct LcSim : Harness {
   // what the implementation is known to do instead when a queued module is linked a second time (known finding): direct
   // calls of MIR functions were inlined by the first step and keep that definition; everything else is re-bound
   std::map<std::pair<int, std::string>, Def> bound_inlined; bool use_impl_bindings = false;
+  // second known deviation: the interpreter re-reads the address of an imported item ("mov r, <import>") from the global
+  // table when it first translates the function, i.e. it binds to the latest definition at first interpretation
+  std::map<std::pair<int, std::string>, Def> bound_late;
   bool redef_allowed = false;
   std::string mode; Fnv th; uint64_t nops_done = 0;
   typedef std::vector<uint8_t> Bytes_t;
@@ -183,6 +186,7 @@ struct LcSim : Harness {
       std::string name = indirect || is_data ? callee.substr(0, callee.size() - 2) : callee;
       if (mi >= 0 && is_data) {
         if (const Json *dj = prog_json->at("mods")[(size_t) mi].find("data")) for (auto &d : dj->a) if (d.gets("name") == name) return &d;
+        if (use_impl_bindings) { auto il = bound_late.find({mi, name}); if (il != bound_late.end()) return il->second.def; }
         auto it = bound.find({mi, name}); return it != bound.end() ? it->second.def : nullptr;
       }
       if (mi >= 0) {
@@ -219,7 +223,7 @@ struct LcSim : Harness {
     const Json &kn = plan.at("knobs"); mode = kn.gets("mode", "C17");
     prog_json = &plan.at("prog"); sigs = prog::signatures(*prog_json);
     if (mode == "C13") for (const char *nm : {"f", "g", "h"}) if (!sigs.count(nm)) { FuncInfo fi; fi.name = nm; fi.na = 1; sigs[nm] = fi; }  // names that only externals define
-    mods.assign(prog_json->at("mods").size(), Mod()); fns.clear(); G.clear(); bound.clear(); bound_inlined.clear(); use_impl_bindings = false; pending.clear(); foreign.clear(); ext_log.clear(); reenter_addr.clear(); reenter_name.clear(); resolver_k.clear(); resolver_asked.clear();
+    mods.assign(prog_json->at("mods").size(), Mod()); fns.clear(); G.clear(); bound.clear(); bound_inlined.clear(); bound_late.clear(); use_impl_bindings = false; pending.clear(); foreign.clear(); ext_log.clear(); reenter_addr.clear(); reenter_name.clear(); resolver_k.clear(); resolver_asked.clear();
     gen_on = c2m_on = ext_loaded = false; opt_level = 2; redef_allowed = false; ext_depth = 0; mdepth = 0; store.clear();
     for (size_t mi = 0; mi < prog_json->at("mods").size(); mi++) for (auto &f : prog_json->at("mods")[mi].at("funcs").a) { Fn fn; fn.def = &f; fn.mod = (int) mi; prog::walk(f.at("body"), [&](const Json &st) { if (st[0].s == "lt" || st[0].s == "ld") fn.has_lt = true; }); fns[f.gets("name")].push_back(fn); }
     if (auto re = kn.find("reenter")) for (auto &p : re->o) reenter_name[atoll(p.first.c_str())] = p.second.s;
@@ -495,6 +499,7 @@ struct LcSim : Harness {
           return;
         }
       }
+      if (by_interp && !g->icode) prog::walk(g->def->at("body"), [&](const Json &st) { if (st[0].s == "ldata") { auto gi2 = G.find(st[2].s); if (gi2 != G.end() && bound.count({g->mod, st[2].s})) bound_late[{g->mod, st[2].s}] = gi2->second; } });
       if (!g->has_lt) { if (by_interp) g->icode = true; else if (!g->generated && (gi == 3 || gi == 4)) g->generated = 1; continue; }
       if (by_interp) { if (!g->icode) { g->icode = true; g->table_owner = 1; } }
       else if (!g->generated && (gi == 3 || gi == 4)) { g->generated = 1; g->table_owner = 2; }
@@ -524,10 +529,12 @@ struct LcSim : Harness {
       if (iface == 4) f->lazybb_entered = true;
     }
     th.u64((uint64_t) got);
-    if (got != want && mods[f->mod].ambiguous) {
+    bool late = false; for (auto &bl : bound_late) if (bl.first.first == f->mod) { auto b0 = bound.find(bl.first); if (b0 != bound.end() && b0->second.def != bl.second.def) late = true; }
+    if (got != want && (mods[f->mod].ambiguous || late)) {
       // does the value match what the implementation is known to do on re-link (inlined direct calls keep the old definition)?
       prog::Model keep = model; use_impl_bindings = true; model.log.clear(); model.entered.clear(); model.steps = 0; model.overrun = false; model.depth = 0;
       int64_t alt = model.call(def, args); use_impl_bindings = false; model = keep;
+      if (got == alt && late && !mods[f->mod].ambiguous) { out.fail("interp_binds_import_address_at_first_interpretation", interp ? "interp" : fmt("iface%d", iface), fmt("%s takes the address of an imported item; it was linked, then the name was redefined, then the function was interpreted for the first time: the interpreter re-reads the address from the global table when it translates the function and sees the later definition (returned %lld; the definition bound when the link step completed gives %lld); generated code keeps the link-time binding", n.c_str(), (long long) got, (long long) want)); return; }
       if (got == alt) { out.fail("relink_keeps_inlined_definition", interp ? "interp" : fmt("iface%d", iface), fmt("%s was left queued by MIR_link(ctx, NULL, ..), a name it imports was redefined, and the next link step re-linked it: its direct call still runs the definition inlined by the first step (returned %lld; binding to the latest definition gives %lld)", n.c_str(), (long long) got, (long long) want)); return; }
     }
     if (got != want) { out.fail("wrong_result", interp ? "interp" : fmt("iface%d", iface), fmt("%s(%s) via %s returned %lld, the program model says %lld", n.c_str(), args.empty() ? "" : std::to_string(args[0]).c_str(), interp ? "MIR_interp" : fmt("address (interface %d, opt %d)", iface, opt_level).c_str(), (long long) got, (long long) want)); return; }
